@@ -1397,11 +1397,9 @@ RCP<const Set> Intersection::set_intersection(const RCP<const Set> &o) const
 
 RCP<const Set> Intersection::set_complement(const RCP<const Set> &o) const
 {
-    set_set container;
-    for (auto &a : container_) {
-        container.insert(a->set_complement(o));
-    }
-    return SymEngine::set_intersection(container);
+    // o \ (A n B) is the union (not the intersection) of o \ A and o \ B;
+    // Complement::set_union would come back here, so keep it unevaluated
+    return SymEngine::set_complement_helper(rcp_from_this_cast<const Set>(), o);
 }
 
 RCP<const Boolean> Intersection::contains(const RCP<const Basic> &o) const
